@@ -78,12 +78,24 @@ size_t gk; /* ghost index: an arbitrary position */
 
 /* ---------------- assumed callees ------------------------------------------------------------------------------ */
 #define RL (route->link_list_)
+/* log entries written before the call are kept */
+#define KEEPQ(k)                                                                                                       \
+  (!((k) < __CPROVER_old(g_ncalls)) ||                                                                                 \
+   (g_q[k].z == __CPROVER_old(g_q[k].z) && g_q[k].s == __CPROVER_old(g_q[k].s) && g_q[k].d == __CPROVER_old(g_q[k].d) && \
+    g_q[k].acc == __CPROVER_old(g_q[k].acc)))
+#define ALL_KEEPQ (KEEPQ(0) && KEEPQ(1) && KEEPQ(2) && KEEPQ(3) && KEEPQ(4) && KEEPQ(5) && KEEPQ(6) && KEEPQ(7))
 #define CUR g_seg[__CPROVER_old(g_ncalls)]
 void NetZoneImpl__get_local_route(struct NetZoneImpl* self, struct NetPoint* src, struct NetPoint* dst,
                                   struct Route* route, double* lat)
     __CPROVER_requires(g_ncalls < MAXCALLS && vf_exc == 0 && self != NULL && RL.h == 0 && RL.n <= LBUF &&
-                       RL.n + SEGCAP <= RL.cap && lat != NULL)
-    __CPROVER_assigns(g_ncalls, g_q[g_ncalls], route->gw_src_, route->gw_dst_, RL.n, RL.d[RL.n], RL.d[RL.n + 1], *lat)
+                       RL.n + SEGCAP <= RL.cap && RL.n <= 1 && lat != NULL)
+    /* NOTE (CBMC 6.11 dfcc): assigns targets with a symbolic index (g_q[g_ncalls], RL.d[RL.n]) of a REPLACED contract are
+       not havocked reliably when the contract is applied several times: whole objects are assigned and every untouched
+       element is restated (KEEPQ, RL.d[0]) */
+    __CPROVER_assigns(g_ncalls, __CPROVER_object_whole(g_q), route->gw_src_, route->gw_dst_, RL.n,
+                      __CPROVER_object_whole(RL.d), *lat)
+    __CPROVER_ensures(ALL_KEEPQ)
+    __CPROVER_ensures(__CPROVER_old(RL.n) < 1 || RL.d[0] == __CPROVER_old(RL.d[0]))
     __CPROVER_ensures(route->gw_src_ == NULL || IN_NP(route->gw_src_))
     __CPROVER_ensures(route->gw_dst_ == NULL || IN_NP(route->gw_dst_))
     __CPROVER_ensures(g_ncalls == __CPROVER_old(g_ncalls) + 1)
@@ -93,8 +105,6 @@ void NetZoneImpl__get_local_route(struct NetZoneImpl* self, struct NetPoint* src
     __CPROVER_ensures(RL.n == __CPROVER_old(RL.n) + CUR.n)
     __CPROVER_ensures(!(0 < CUR.n) || RL.d[__CPROVER_old(RL.n)] == CUR.l[0])
     __CPROVER_ensures(!(1 < CUR.n) || RL.d[__CPROVER_old(RL.n) + 1] == CUR.l[1])
-    __CPROVER_ensures(CUR.n >= 1 || RL.d[__CPROVER_old(RL.n)] == __CPROVER_old(RL.d[RL.n]))
-    __CPROVER_ensures(CUR.n >= 2 || RL.d[__CPROVER_old(RL.n) + 1] == __CPROVER_old(RL.d[RL.n + 1]))
     __CPROVER_ensures(g_q[__CPROVER_old(g_ncalls)].acc == lat && *lat == g_latval[__CPROVER_old(g_ncalls)]);
 
 struct NetPoint* NetZoneImpl__get_gateway(struct NetZoneImpl* self)
@@ -109,8 +119,9 @@ struct NetPoint* NetZoneImpl__get_gateway(struct NetZoneImpl* self)
 _Bool NetZoneImpl__get_bypass_route(struct NetZoneImpl* self, struct NetPoint* src, struct NetPoint* dst,
                                     struct vf_seq_StandardLinkImplP* links, double* lat,
                                     struct vf_set_NetZoneImplP* netzones)
-    __CPROVER_requires(vf_exc == 0 && self != NULL && links->h == 0 && links->n + SEGCAP <= links->cap && lat != NULL)
-    __CPROVER_assigns(g_bcalls, g_bq; g_bypass: links->n, links->d[links->n], links->d[links->n + 1], *lat)
+    __CPROVER_requires(vf_exc == 0 && self != NULL && links->h == 0 && links->n <= 1 && links->n + SEGCAP <= links->cap && lat != NULL)
+    __CPROVER_assigns(g_bcalls, g_bq; g_bypass: links->n, __CPROVER_object_whole(links->d), *lat)
+    __CPROVER_ensures(!g_bypass || __CPROVER_old(links->n) < 1 || links->d[0] == __CPROVER_old(links->d[0]))
     __CPROVER_ensures(__CPROVER_return_value == g_bypass)
     __CPROVER_ensures(g_bcalls == __CPROVER_old(g_bcalls) + 1 && g_bq.z == self && g_bq.s == src && g_bq.d == dst)
     __CPROVER_ensures(!g_bypass || links->n == __CPROVER_old(links->n) + g_bseg.n)
@@ -442,8 +453,8 @@ void NetZoneImpl__get_interzone_route(struct NetPoint* netpoint, struct NetPoint
                        links->n <= 1 && links->n + 3 * SEGCAP <= links->cap && links->cap <= LBUF &&
                        zones_path->h == 0 && zones_path->n <= 2 && zones_path->cap >= 2 && WF_ZONES &&
                        (zones_path->n < 1 || IS_Z(ZP(0))) && (zones_path->n < 2 || IS_Z(ZP(1))))
-    __CPROVER_assigns(vf_exc, g_ncalls, g_q[g_ncalls], g_q[g_ncalls + 1], g_q[g_ncalls + 2], links->n,
-                      __CPROVER_object_whole(links->d), *latency)
+    __CPROVER_assigns(vf_exc, g_ncalls, __CPROVER_object_whole(g_q), links->n, __CPROVER_object_whole(links->d), *latency)
+    __CPROVER_ensures(ALL_KEEPQ) /*@ iz_keeps_the_earlier_log_entries */
     __CPROVER_ensures((vf_exc == VF_EXC_ABORT) == IZX(IZ_ABORTS)) /*@ iz_aborts_iff_path_exhausted */
     __CPROVER_ensures((vf_exc != 0) == IZX(IZ_FAIL))              /*@ iz_fails_iff_no_zone_or_no_gateway */
     __CPROVER_ensures(vf_exc == 0 || vf_exc == VF_EXC_ABORT || vf_exc == VF_EXC_AssertionError)
